@@ -193,6 +193,24 @@ func c12Gen(r *Run) {
 		add(doc, g, reps)
 		add(doc2, g, reps)
 	}
+	// storms: the same small loop thousands of times, eight at once (a wake-up lost in a window of a
+	// few instructions leaves the LAST traveler or the last signal in the jump queue: one loop in
+	// hundreds never closes)
+	nstorm := 800 // ~13 ms each with eight at once (the unchanged queue busy-waits)
+	if thorough {
+		nstorm = 6000
+	}
+	storm := c12Prog{"storm", ja{sV("v0"), sSet("count", 0), sAs("s"), sMark("a"), sInc("$s.count", 1),
+		sHas(c12Ctr(12, "LT")), sJump("a", nil, true)}}
+	for _, pr := range []int{8, 16} {
+		ops = append(ops, jm{"op": "loop", "class": "storm", "graph": graphs[0], "stmts": storm.stmts, "procs": pr,
+			"reps": nstorm, "par": 8, "noise": 0, "deadline_ms": 20000})
+		r.Count("class:storm")
+	}
+	ops = append(ops, jm{"op": "loop", "class": "storm", "graph": graphs[0], "stmts": doc.stmts, "procs": 8,
+		"reps": nstorm / 2, "par": 8, "noise": 0, "deadline_ms": 20000})
+	r.Count("class:storm")
+	r.NonTrivial(c12Key(storm, graphs[0]))
 	for i := 0; i < nprog; i++ {
 		var p c12Prog
 		switch k := rng.Intn(20); {
